@@ -118,6 +118,10 @@ def entry_points(obj, jd, o_in, sel, cls):
     for form, target in (("object", obj), ("dict", jd)):
         eps.append(("get_markings/" + form, lambda t=target: mk.get_markings(t, sel)))
         eps.append(("is_marked/" + form, lambda t=target: mk.is_marked(t, selectors=sel)))
+        # option combinations: the object-level side of an inherited lookup must not stand in for checking the selector
+        eps.append(("is_marked(inherited)/" + form, lambda t=target: mk.is_marked(t, selectors=sel, inherited=True)))
+        eps.append(("is_marked(marking,inherited,descendants)/" + form, lambda t=target: mk.is_marked(t, MARK, sel, inherited=True, descendants=True)))
+        eps.append(("get_markings(inherited,descendants)/" + form, lambda t=target: mk.get_markings(t, sel, inherited=True, descendants=True)))
         eps.append(("add_markings/" + form, lambda t=target: mk.add_markings(t, MARK, sel)))
         eps.append(("remove_markings/" + form, lambda t=target: mk.remove_markings(t, MARK, sel)))
         eps.append(("clear_markings/" + form, lambda t=target: mk.clear_markings(t, sel)))
@@ -161,6 +165,8 @@ def wl_objects(ctx, rng, i):
         # keys that are string prefixes of their siblings, in an order that is not string order; a two-digit index inside
         o["x_headers"] = {"Accept": ["a", "b"], "Accept-Encoding": "gzip", "A": {"q": 1}, "A-1": 0,
                           "list": [{"k": n} for n in range(11)], "matrix": [[1, 0], [{"k": [["z"]]}]]}      # lists nested in lists
+    if "object_marking_refs" in tbl["by_name"] and rnd % 2 == 0:
+        o["object_marking_refs"] = [MARK]
     try:
         with warnings.catch_warnings():
             warnings.simplefilter("ignore")
